@@ -46,7 +46,7 @@ mut('C02', 'js_desc_sorts_descending_instead_of_reverse', [e(JS, "        unsort
 mut('C06', 'py_update_aliases_input', [e(PY_ENGINE, 'up_fields = record_a[:]\n', 'up_fields = record_a\n', 2)], runs=3000)
 mut('C06', 'py_select_star_fast_path', [e(PY_ENGINE, "    return ('[{}]'.format(translated), translated_for_ast)\n",
                                           "    if translated == '] + star_fields + [':\n        return ('star_fields', translated_for_ast)\n    return ('[{}]'.format(translated), translated_for_ast)\n")], runs=3000)
-mut('C06', 'sqlite_whitelist_loosened', [e(PY_SQLITE, "re.match('^[a-zA-Z0-9_]*$', table_name)", "re.match('^[^;]*$', table_name)")], runs=3000)
+mut('C06', 'sqlite_whitelist_loosened', [e(PY_SQLITE, "re.match(r'^[a-zA-Z0-9_]*\\Z', table_name)", "re.match('^[^;]*$', table_name)")], runs=3000)
 mut('C06', 'js_update_fix_reverted', [e(JS, "let up_fields = record_a.slice(); // UPDATE must work on a copy: the caller's input records are never modified.", 'let up_fields = record_a;', 2)], runs=3000)
 mut('C06', 'py_update_join_aliases_only_when_no_match', [e(PY_ENGINE, "    bNR, bNF, record_b = None, None, None\nup_fields = record_a[:]\n", "    bNR, bNF, record_b = None, None, None\nup_fields = record_a[:] if len(join_matches) == 1 else record_a\n")], runs=6000)
 mut('C06', 'py_except_returns_source_when_nothing_left', [e(PY_ENGINE, "def select_except(src, except_fields):\n    result = list()\n", "def select_except(src, except_fields):\n    if not [i for i in except_fields if i < len(src)]:\n        return src\n    result = list()\n")], runs=8000)
@@ -80,9 +80,9 @@ mut('C15', 'close_fix_reverted_in_query_csv', [e(PY_CSV, "            close_igno
 mut('C15', 'select_unnested_ignores_false', [e(PY_ENGINE, "            if not select_simple(query_context, sort_key, out_fields):\n                return False\n        return True\n", "            select_simple(query_context, sort_key, out_fields)\n        return True\n")], runs=4000)
 mut('C15', 'uniqcount_finish_ignores_false', [e(PY_ENGINE, "            mutable_record.insert(0, cnt)\n            if not self.subwriter.write(mutable_record):\n                break\n", "            mutable_record.insert(0, cnt)\n            self.subwriter.write(mutable_record)\n")], runs=4000)
 mut('C15', 'sorted_finish_ignores_false', [e(PY_ENGINE, "        for e in sorted_entries:\n            if not self.subwriter.write(e[1]):\n                break\n", "        for e in sorted_entries:\n            self.subwriter.write(e[1])\n")], runs=4000)
-mut('C15', 'join_registry_not_finished', [e(PY_CSV, "        if join_tables_registry:\n            join_tables_registry.finish()\n", "        if join_tables_registry:\n            pass\n")], runs=1500)
-mut('C15', 'input_closed_only_on_success', [e(PY_CSV, "        rbql_engine.query(query_text, input_iterator, output_writer, output_warnings, join_tables_registry, user_init_code)\n    finally:\n        if close_input_on_finish:\n            input_stream.close()\n",
-                                              "        rbql_engine.query(query_text, input_iterator, output_writer, output_warnings, join_tables_registry, user_init_code)\n        if close_input_on_finish:\n            input_stream.close()\n            close_input_on_finish = False\n    finally:\n")], runs=1500)
+mut('C15', 'join_registry_not_finished', [e(PY_CSV, "            if join_tables_registry:\n                join_tables_registry.finish()\n", "            if join_tables_registry:\n                pass\n")], runs=1500)
+mut('C15', 'input_closed_only_on_success', [e(PY_CSV, "        rbql_engine.query(query_text, input_iterator, output_writer, output_warnings, join_tables_registry, user_init_code)\n    finally:\n        try:\n            if close_input_on_finish:\n                input_stream.close()\n",
+                                              "        rbql_engine.query(query_text, input_iterator, output_writer, output_warnings, join_tables_registry, user_init_code)\n        if close_input_on_finish:\n            input_stream.close()\n            close_input_on_finish = False\n    finally:\n        try:\n            pass\n")], runs=1500)
 mut('C15', 'decode_error_escapes_from_refill', [e(PY_CSV, "        try:\n            row = self._get_row_from_buffer()\n            if row is None:\n                self._read_until_found()\n",
                                                   "        row = None\n        if self._get_row_from_buffer_peek() is None:\n            self._read_until_found()\n        try:\n            row = self._get_row_from_buffer()\n            if row is None:\n                pass\n"),
                                                 e(PY_CSV, "    def _read_until_found(self):\n", "    def _get_row_from_buffer_peek(self):\n        return True if csv_utils.newline_rgx.search(self.buffer) is not None else None\n\n\n    def _read_until_found(self):\n")], runs=2500)
